@@ -37,6 +37,11 @@ func parseOptions() options {
 		types = append(types, k)
 	}
 
+	// Options are given as pairs of switch and value.
+	if (len(args)-1)%2 != 0 {
+		panic(fmt.Errorf("no value provided for %s", args[len(args)-1]))
+	}
+
 	for i := 1; i < (len(args) - 1); i += 2 {
 		cSwitch := args[i]
 		cValue := args[i+1]
